@@ -405,6 +405,8 @@ def process_loop(f) -> Tuple[ast.For, str]:
 def run(repo, rep):
     from ..pitfalls import memo_rule as _memo_rule
     _memo_rule(repo, rep, 'C07', 'C07.Z1')
+    from ..pitfalls import log_rule as _log_rule
+    _log_rule(repo, rep, 'C07', 'C07.Z2')
     fsm = repo.module('fsm')
     dec = repo.cls('fsm', 'DIMSEDecoder')
     proc = dec.find_method('process')
